@@ -100,6 +100,8 @@ def parse_console(text: str) -> T.Tuple[T.List[T.Tuple[str, str]], T.Dict[str, i
     results: T.List[T.Tuple[str, str]] = []
     summary: T.Dict[str, int] = {}
     in_failsum = False
+    # a terminal run interleaves progress lines ending in \r and erase sequences
+    text = re.sub(r'\x1b\[[0-9;]*[A-Za-z]', '', text).replace('\r', '\n')
     for line in text.splitlines():
         if line.strip() == 'Summary of Failures:':
             in_failsum = True     # repeats result lines already printed
